@@ -6,6 +6,7 @@ import DM.Lemmas.AsciiRT
 import DM.Lemmas.X12RT
 import DM.Lemmas.B256RT
 import DM.Lemmas.EdiRT
+import DM.Lemmas.C40RT
 /-!
 # C01 — the symbol-level half of the round trip, for all sizes and all contents
 
@@ -267,5 +268,43 @@ example : DM.Model.Enc.run (symbolList (List.range 30)) [] [65, 66, 67, 68, 69, 
     [(10, .edifact), (0, .edifact)] = .ok ([240, 4, 32, 196, 20, 97, 200, 36, 167, 192], 4) := by decide +kernel
 example : DM.Model.Enc.run (symbolList [5]) [] [65, 66, 67, 68, 69, 70, 71, 72] [(8, .edifact), (0, .edifact)] =
     .ok ([240, 4, 32, 196, 20, 97, 200, 124, 129, 101, 251, 147], 5) := by decide +kernel
+
+/-! ## The data-level half for a message planned entirely in C40 or in Text
+
+`c40_roundtrip`, `text_roundtrip`: every byte value (basic set, the three shift sets, upper shift),
+triples flushed as they fill, and every end-of-data branch of `c40::handle_end`: two values left and
+exactly two codewords of room (fill value 0, no UNLATCH); one value left and room for UNLATCH + one
+codeword (the value is dropped, UNLATCH, the last character again in ASCII); one value left, exactly
+one codeword of room and a one-codeword character (no UNLATCH, single trailing ASCII codeword); the
+general case (fill with Shift 2 / Shift 2 + Upper Shift, UNLATCH if there is room); and the
+"two digits left with an empty buffer" case (UNLATCH if there is room, digit pair in ASCII). The
+encoder's value function is identified with the reference builder's on all 512 (charset, byte)
+pairs and the decoder's value automaton is run on every proper prefix of every value sequence by
+kernel evaluation. -/
+
+theorem c40_roundtrip (list : List Sym) (body cw : List Nat) (sym : Sym) (hb : ∀ b ∈ body, b < 256)
+    (h : DM.Model.Enc.run list [] body [(body.length, .c40), (0, .c40)] = .ok (cw, sym)) :
+    DM.Model.Dec.decodeData cw = .ok body :=
+  DM.Lemmas.C40RT.pure_c40_roundtrip false list body cw sym hb h
+
+theorem text_roundtrip (list : List Sym) (body cw : List Nat) (sym : Sym) (hb : ∀ b ∈ body, b < 256)
+    (h : DM.Model.Enc.run list [] body [(body.length, .text), (0, .text)] = .ok (cw, sym)) :
+    DM.Model.Dec.decodeData cw = .ok body :=
+  DM.Lemmas.C40RT.pure_c40_roundtrip true list body cw sym hb h
+
+/-- Non-vacuity: exact fit, dropped value + UNLATCH + ASCII, fill value 0, two trailing digits,
+Text with upper shift, fill with Shift 2 + Upper Shift. -/
+example : DM.Model.Enc.run (symbolList (List.range 30)) [] [65, 66, 67] [(3, .c40), (0, .c40)] =
+    .ok ([230, 89, 233], 0) := by decide +kernel
+example : DM.Model.Enc.run (symbolList (List.range 30)) [] [65, 66, 67, 68] [(4, .c40), (0, .c40)] =
+    .ok ([230, 89, 233, 254, 69], 1) := by decide +kernel
+example : DM.Model.Enc.run (symbolList (List.range 30)) [] [65, 66, 67, 68, 69] [(5, .c40), (0, .c40)] =
+    .ok ([230, 89, 233, 109, 17], 1) := by decide +kernel
+example : DM.Model.Enc.run (symbolList (List.range 30)) [] [65, 66, 67, 49, 50] [(5, .c40), (0, .c40)] =
+    .ok ([230, 89, 233, 254, 142], 1) := by decide +kernel
+example : DM.Model.Enc.run (symbolList (List.range 30)) [] [97, 98, 99, 200] [(4, .text), (0, .text)] =
+    .ok ([239, 89, 233, 10, 243, 50, 71, 254], 3) := by decide +kernel
+example : DM.Model.Enc.run (symbolList (List.range 30)) [] [65, 66, 67, 68, 69, 70, 33] [(7, .c40), (0, .c40)] =
+    .ok ([230, 89, 233, 109, 36, 6, 66, 254], 3) := by decide +kernel
 
 end DM.Props.C01
